@@ -35,8 +35,17 @@ func (c Case) shots() int {
 
 func intp(i int) *int       { return &i }
 func i64p(i int64) *int64   { return &i }
+// chance is true with probability pct/100. rapid's integer generators favour small
+// values heavily, so the number is assembled from fair bits; all-false (what the
+// shrinker aims at) means "no".
 func chance(t *rapid.T, pct int, label string) bool {
-	return rapid.IntRange(0, 99).Draw(t, label) < pct
+	n := 0
+	for i := 0; i < 7; i++ {
+		if rapid.Bool().Draw(t, label) {
+			n |= 1 << i
+		}
+	}
+	return n >= 128-(pct*128+50)/100
 }
 
 var richPool = []string{"a b", "x,y", "q;r", `say "hi"`, "it's", "a&b=c", "<tag>", "100%", "k: v", "#1", "A  B", "é ü", "x|y", "[1]", "$.x", "a\\b", "- a", "yes", "null"}
@@ -365,6 +374,9 @@ func (g *pgen) pres() {
 			n = 1
 		}
 		nextUsed := map[string]bool{}
+		// a mapping that cannot be resolved fails the preprocessor; the documentation does not say whether the
+		// other mappings (which may take a [next] row) are evaluated before that, so the two never meet
+		hasNext, hasDead := false, false
 		for k := 0; k < n; k++ {
 			m := si.PreMap{Var: fmt.Sprintf("p%d", k), Dot: chance(t, 25, "preDot")}
 			kind := rapid.SampledFrom([]string{"next", "next", "next", "last", "idx", "var", "post", "post", "pre"}).Draw(t, "preKind")
@@ -373,6 +385,9 @@ func (g *pgen) pres() {
 			}
 			if g.concurrent && kind == "next" && !(forceNext && k == 0) {
 				kind = "last" // concurrent programs take exactly one row per invocation
+			}
+			if kind == "next" && hasDead {
+				kind = "last"
 			}
 			switch kind {
 			case "next", "last", "idx":
@@ -399,6 +414,7 @@ func (g *pgen) pres() {
 				switch kind {
 				case "next":
 					m.Index = "next"
+					hasNext = true
 					g.nextOwner[s.Name] = sole
 					nextUsed[s.Name] = true
 				case "last":
@@ -426,7 +442,7 @@ func (g *pgen) pres() {
 				// the target) by a step that did not run before: the preprocessor then fails
 				pool := sortedKeys(g.before[r.Name])
 				dead := false
-				if !g.isEntry(r.Name) && !g.concurrent && chance(t, 4, "deadPre") {
+				if !g.isEntry(r.Name) && !g.concurrent && !hasNext && chance(t, 4, "deadPre") {
 					pool = nil
 					for _, q := range g.p.Requests {
 						if q.Name != r.Name && !g.before[r.Name][q.Name] {
@@ -438,6 +454,7 @@ func (g *pgen) pres() {
 				if len(pool) == 0 {
 					continue
 				}
+				hasDead = hasDead || dead
 				q := g.p.Request(rapid.SampledFrom(pool).Draw(t, "preRefReq"))
 				if kind == "post" {
 					var vars []string
